@@ -744,6 +744,22 @@ def oracle(case, obs):
 
     def dec_name(nm):
         return [("s", inv[p[1]]) if p[0] == 0 else ("i", p[1]) for p in nm]
+    # C18, independently of everything below (which stops at the first call whose result is not the required one):
+    # in every listing of every map, no two resources are reported under the same path, whatever history led there
+    for k, (op, o) in enumerate(zip(ops, obs)):
+        if op[0] != "obs":
+            continue
+        for mi, m in enumerate(o):
+            ar = m[3]
+            if ar[0] != 0:
+                continue
+            paths = [repr([dec_name(p) for p in i[1]]) for i in ar[1]]
+            if len(set(paths)) != len(paths):
+                dup = next(p_ for p_ in paths if paths.count(p_) > 1)
+                out.append(("C18", k, f"map {mi}: two resources are reported under the same path {dup}", "dup-path"))
+                break
+        if out:
+            break
     last_obs = None
     failed_since = False     # some call since the last observation raised ...
     ok_since = False         # ... and none succeeded (then every answer must be unchanged)
